@@ -52,6 +52,8 @@ pub fn generate(prop: &str, seed: u64, tier: Tier) -> Program {
         "C13" => Program::Net(net_gen::gen_c13(&mut rng, tier)),
         "C16" => Program::Net(net_gen::gen_c16(&mut rng, tier)),
         "C20" => Program::Net(net_gen::gen_c20(&mut rng, tier)),
+        "C05" => Program::Net(asy::gen_c05(&mut rng, tier)),
+        "C06" => Program::Net(asy::gen_c06(&mut rng, tier)),
         _ => {
             eprintln!("dsim: no engine for property {prop}");
             std::process::exit(2);
@@ -118,6 +120,7 @@ fn execute_net(prop: &str, p: &net::NetProgram) -> RunInfo {
     info.trace_hash = net::trace_hash(&res.trace);
     match prop {
         "C09" => net_oracles::check_c09(p, &res, &mut info),
+        "C05" | "C06" => asy::check_tasks(p, &res, prop, &mut info),
         "C16" => net_oracles::check_c16(p, &res, &mut info),
         "C13" => {
             let twin = net::run_net(p, &net::RunOpts { collect_gate_info: false, twin: true });
